@@ -170,6 +170,43 @@ def main(tier: str) -> int:
         for D in ((2, 10, 30) if tier == "quick" else (2, 10, 30, 50)):
             ops.append({"op": "bench_shift", "problem": which, "table": [C.rat(float(v)) for v in raw], "D": D, "history": hist, "inplace": False})
             ctx_.append(("shift:" + which, {"problem": pid, "D": D, "history": hist}, None))
+    # ---- the TRANSLATED elementwise functions (TFV/Generated/Src/Bench_*_f.lean, read through TFV.Model.NpQ) evaluated by Lean on
+    #      populations of small dyadic numbers (every float operation on them is exact) against the real functions
+    import subprocess
+    from fractions import Fraction as _Fr
+    kcases = []
+    for _ in range(40 if tier == "quick" else 300):
+        kname = rng.choice(["OneMax", "Sphere", "Schwefel12", "Rosenbrock", "Rastrigin"])
+        nr, nc = rng.randint(0, 3), rng.randint(1, 5)
+        den = 1 if kname == "Rastrigin" else rng.choice([1, 2, 4])        # integers for Rastrigin: cos(2 pi k) = 1
+        Xk = np.array([[rng.randint(-6, 6) / den for _ in range(nc)] for _ in range(nr)], dtype=np.float64).reshape(nr, nc)
+        kcases.append((kname, Xk))
+    cls_of = {"OneMax": OP.OneMax, "Sphere": OP.Sphere, "Schwefel12": OP.Schwefe1_2, "Rosenbrock": OP.Rosenbrock, "Rastrigin": OP.Rastrigin}
+    klines = ["import TFV.Generated.Src.Bench_OneMax_f", "import TFV.Generated.Src.Bench_Sphere_f", "import TFV.Generated.Src.Bench_Schwefel12_f",
+              "import TFV.Generated.Src.Bench_Rosenbrock_f", "import TFV.Generated.Src.Bench_Rastrigin_f", "open TFV TFV.Generated.Src",
+              "def showQ : Option (List Rat) → String | none => \"none\" | some v => toString (v.map fun q => (q.num, q.den))"]
+    for kname, Xk in kcases:
+        mtx = "{ ncols := %d, rows := [%s] }" % (Xk.shape[1], ", ".join("[" + ", ".join("(%d : Rat) / %d" % (_Fr(float(v)).numerator, _Fr(float(v)).denominator) for v in row) + "]" for row in Xk))
+        klines.append("#eval IO.println (showQ (Bench_%s_f %s%s))" % (kname, "(fun _ => 1) " if kname == "Rastrigin" else "", mtx))
+    kaudit = C.LEAN / "TFV" / "Audit" / "C20_np.lean"
+    kaudit.parent.mkdir(parents=True, exist_ok=True)
+    kaudit.write_text("\n".join(klines) + "\n")
+    with C.LeanLock():
+        kpr = subprocess.run(["lake", "env", "lean", str(kaudit.relative_to(C.LEAN))], cwd=C.LEAN, capture_output=True, text=True, timeout=900)
+    kgot = [l.strip() for l in kpr.stdout.splitlines() if l.strip()]
+    chk.obligation("the translated benchmark functions evaluate (lake env lean TFV/Audit/C20_np.lean)", kpr.returncode == 0 and len(kgot) == len(kcases), (kpr.stdout + kpr.stderr)[-600:])
+    if kpr.returncode == 0 and len(kgot) == len(kcases):
+        import re as _re
+        for (kname, Xk), g in zip(kcases, kgot):
+            try:
+                real = [float(v) for v in np.asarray(cls_of[kname]().f(Xk), dtype=np.float64).reshape(-1)]
+            except Exception:
+                real = None
+            vals = None if g == "none" else [int(a) / int(b) for a, b in _re.findall(r"\((-?\d+), (\d+)\)", g)]
+            chk.count("np_kernel_" + kname)
+            same = (real is None and vals is None) or (real is not None and vals is not None and len(real) == len(vals) and all(C.close(a, b, 1e-9, 1e-9) for a, b in zip(real, vals)))
+            (chk.agree("np_kernel:" + kname) if same else chk.disagree("np_kernel:" + kname, {"input": {"function": kname, "population": Xk.tolist()}, "impl": real, "model": g}))
+
     try:
         outs = C.lean_driver([json.dumps(o) for o in ops])
     except Exception as e:
